@@ -165,4 +165,365 @@ theorem resolve_items (items : List RepeatableFlag) :
       congr 1
       refine Prod.ext ?_ (Prod.ext ?_ ?_) <;> simp only [] <;> (repeat' split) <;> omega
 
+theorem flagBytes_length (ds : List PointDelta) :
+    (flagBytes ds).length = rleCost (iterFromFlags none (ds.map (·.flag))) := by
+  unfold flagBytes; exact flatMap_bytes_length _
+
+theorem expand_length (fs : List Nat) (h : ∀ f ∈ fs, FlagOk f) :
+    (expandRaw (iterFromFlags none fs)).length = fs.length := by
+  have := congrArg List.length (iterFromFlags_expand fs h)
+  simpa using this
+
+/-- the slow decoder (`points()`) on the writer's flag/coordinate bytes -/
+theorem points_of_data (v : SimpleView) (pts : List Point) (ds : List PointDelta) (pad : List Nat)
+    (last : Nat) (hr : PointsInRange pts) (hd : computePointDeltas 0 0 pts = some ds)
+    (hl : v.endPts.getLast? = some last) (hn : last + 1 = pts.length) (hmax : pts.length ≤ 65535)
+    (hg : v.glyphData = flagBytes ds ++ (xBytes ds ++ (yBytes ds ++ pad))) :
+    v.points = pts := by
+  have hfl := computePointDeltas_flags pts 0 0 ds hd
+  have hlen := computePointDeltas_length pts 0 0 ds hd
+  have hwf := iterFromFlags_wf _ hfl
+  have hexp := iterFromFlags_expand _ hfl
+  have hel := expand_length _ hfl
+  have hsz := sizes_eq pts 0 0 ds _ hd hexp
+  have hres := resolve_items (iterFromFlags none (ds.map (·.flag)))
+    (xBytes ds ++ (yBytes ds ++ pad)) 0 0 0 hwf
+  simp only [List.length_map] at hel
+  rw [hel, hlen, hsz.1, hsz.2] at hres
+  simp only [Nat.zero_add] at hres
+  unfold SimpleView.points
+  rw [hl]
+  simp only []
+  have h1 : ¬ (last + 1 > 65535) := by omega
+  simp only [h1, ↓reduceIte, hn, hg]
+  have hfb : flagBytes ds = (iterFromFlags none (ds.map (·.flag))).flatMap RepeatableFlag.bytes := rfl
+  rw [hfb, hres]
+  simp only []
+  have hcl := flatMap_bytes_length (iterFromFlags none (ds.map (·.flag)))
+  have h2 : ¬ (((iterFromFlags none (ds.map (·.flag))).flatMap RepeatableFlag.bytes
+      ++ (xBytes ds ++ (yBytes ds ++ pad))).length
+      < rleCost (iterFromFlags none (ds.map (·.flag))) + (xBytes ds).length + (yBytes ds).length) := by
+    simp only [List.length_append, hcl]; omega
+  simp only [h2, ↓reduceIte]
+  rw [← hcl]
+  simp only [List.take_left', List.drop_left', List.take_left, List.drop_left]
+  unfold PointIter.new
+  rw [collect_items]
+  · have := decodeRun_deltas pts 0 0 ds _ [] pad hr hd hexp
+    have h1' : ¬ (65535 < pts.length) := by omega
+    simpa [h1'] using this
+  · have := wf_length_le _ hwf
+    rw [hcl]; omega
+
+theorem zip3_map {α : Type} (pts : List α) (fx fy : α → Int) (fo : α → Nat) :
+    ∀ (cs : List Nat), cs.map (fun f => f &&& 1) = pts.map fo →
+    (((pts.map fx).zip ((pts.map fy).zip cs)).map (fun t => (t.1, t.2.1, t.2.2 &&& 1)))
+      = pts.map (fun p => (fx p, fy p, fo p)) := by
+  induction pts with
+  | nil => intro cs h; simp
+  | cons p ps ih =>
+    intro cs h
+    cases cs with
+    | nil => simp at h
+    | cons c cs' =>
+      simp only [List.map_cons, List.cons.injEq] at h
+      simp only [List.map_cons, List.zip_cons_cons, List.cons.injEq]
+      exact ⟨by rw [h.1], ih cs' h.2⟩
+
+/-- `read_points_fast` on the writer's flag/coordinate bytes -/
+theorem fast_of_data (v : SimpleView) (pts : List Point) (ds : List PointDelta) (pad : List Nat)
+    (last : Nat) (hr : PointsInRange pts) (hd : computePointDeltas 0 0 pts = some ds)
+    (hl : v.endPts.getLast? = some last) (hn : last + 1 = pts.length)
+    (hg : v.glyphData = flagBytes ds ++ (xBytes ds ++ (yBytes ds ++ pad))) :
+    v.readPointsFast = some (pts.map (fun p => (p.x, p.y, if p.on then 1 else 0))) := by
+  have hfl := computePointDeltas_flags pts 0 0 ds hd
+  have hlen := computePointDeltas_length pts 0 0 ds hd
+  have hwf := iterFromFlags_wf _ hfl
+  have hexp := iterFromFlags_expand _ hfl
+  have hel := expand_length _ hfl
+  simp only [List.length_map] at hel
+  have hcl := flatMap_bytes_length (iterFromFlags none (ds.map (·.flag)))
+  have hcost := wf_cost_le _ hwf
+  have hne : iterFromFlags none (ds.map (·.flag)) ≠ [] := by
+    intro e; rw [e] at hel; simp [expandRaw] at hel; omega
+  have hnp : v.numPoints = pts.length := by unfold SimpleView.numPoints; rw [hl]; exact hn
+  have hfb : flagBytes ds = (iterFromFlags none (ds.map (·.flag))).flatMap RepeatableFlag.bytes := rfl
+  unfold SimpleView.readPointsFast
+  simp only [hnp, hg]
+  have hn0 : ¬ (pts.length = 0) := by omega
+  simp only [hn0, ↓reduceIte]
+  rw [List.take_append, hfb]
+  have hk : ((iterFromFlags none (ds.map (·.flag))).flatMap RepeatableFlag.bytes).length
+      ≤ min pts.length (((iterFromFlags none (ds.map (·.flag))).flatMap RepeatableFlag.bytes
+        ++ (xBytes ds ++ (yBytes ds ++ pad))).length) := by
+    simp only [List.length_append, hcl]; omega
+  rw [List.take_of_length_le hk]
+  have hff := fastFlags_items _ (List.take (min pts.length
+      (((iterFromFlags none (ds.map (·.flag))).flatMap RepeatableFlag.bytes
+        ++ (xBytes ds ++ (yBytes ds ++ pad))).length)
+      - ((iterFromFlags none (ds.map (·.flag))).flatMap RepeatableFlag.bytes).length)
+      (xBytes ds ++ (yBytes ds ++ pad))) hne hwf
+  rw [hel, hlen] at hff
+  rw [hff]
+  simp only [hel, hlen, Nat.sub_self, List.replicate_zero, List.append_nil]
+  rw [← hcl, List.drop_left]
+  rw [fastCoords_x pts 0 0 ds _ (yBytes ds ++ pad) hr hd hexp]
+  simp only []
+  rw [fastCoords_y pts 0 0 ds _ pad hr hd hexp]
+  simp only []
+  have hon := on_bits pts 0 0 ds _ hd hexp
+  rw [zip3_map pts (·.x) (·.y) (fun p => if p.on then 1 else 0) _ hon]
+
+theorem u16At_at (data pre post : List Nat) (v : Int) (pos : Nat) (hpos : pos = pre.length)
+    (hd : data = pre ++ (be16 v ++ post)) : u16At data pos = some (v % 65536).toNat := by
+  subst hpos; subst hd; exact u16At_mid pre post v
+
+theorem i16At_at (data pre post : List Nat) (v : Int) (pos : Nat) (h : inI16 v)
+    (hpos : pos = pre.length) (hd : data = pre ++ (be16 v ++ post)) : i16At data pos = some v := by
+  subst hpos; subst hd; exact i16At_mid pre post v h
+
+def epsBytes (eps : List Nat) : List Nat := eps.flatMap (fun (e : Nat) => be16 (e : Int))
+
+theorem epsBytes_length (eps : List Nat) : (epsBytes eps).length = 2 * eps.length := by
+  induction eps with
+  | nil => rfl
+  | cons e es ih => simp only [epsBytes, List.flatMap_cons, List.length_append, List.length_cons] at ih ⊢
+                    rw [ih]; simp [be16_eq]; omega
+
+theorem eps_get (eps : List Nat) : ∀ (pre post : List Nat) (i : Nat) (hi : i < eps.length),
+    (∀ e ∈ eps, e < 65536) →
+    u16At (pre ++ (epsBytes eps ++ post)) (pre.length + 2 * i) = some eps[i] := by
+  induction eps with
+  | nil => intro pre post i hi; simp at hi
+  | cons e es ih =>
+    intro pre post i hi he
+    cases i with
+    | zero =>
+      simp only [epsBytes, List.flatMap_cons, List.append_assoc, Nat.mul_zero, Nat.add_zero,
+        List.getElem_cons_zero]
+      rw [u16At_mid]
+      have := he e (by simp)
+      congr 1; omega
+    | succ j =>
+      have hj : j < es.length := by simpa using hi
+      have := ih (pre ++ be16 (e : Int)) post j hj (fun x hx => he x (by simp [hx]))
+      simp only [List.length_append, be16_length, List.append_assoc] at this
+      simp only [epsBytes, List.flatMap_cons, List.append_assoc, List.getElem_cons_succ]
+      have e2 : pre.length + 2 * (j + 1) = pre.length + 2 + 2 * j := by omega
+      rw [e2]
+      exact this
+
+theorem eps_read (eps : List Nat) (pre post : List Nat) (he : ∀ e ∈ eps, e < 65536) :
+    (List.range eps.length).map
+      (fun i => (u16At (pre ++ (epsBytes eps ++ post)) (pre.length + 2 * i)).getD 0) = eps := by
+  apply List.ext_getElem
+  · simp
+  · intro i h1 h2
+    simp only [List.getElem_map, List.getElem_range]
+    have hi : i < eps.length := by simpa using h1
+    rw [eps_get eps pre post i hi he]
+    rfl
+
+
+/-- the generated `SimpleGlyph::read` on a well-formed glyph layout -/
+theorem readSimple_canon (nc : Nat) (xMin yMin xMax yMax : Int) (eps instr tail : List Nat)
+    (hnc : nc < 32768) (hn : eps.length = nc) (he : ∀ e ∈ eps, e < 65536)
+    (hi : instr.length < 65536)
+    (h1 : inI16 xMin) (h2 : inI16 yMin) (h3 : inI16 xMax) (h4 : inI16 yMax) :
+    readSimple (be16 (nc : Int) ++ (be16 xMin ++ (be16 yMin ++ (be16 xMax ++ (be16 yMax ++
+      (epsBytes eps ++ (be16 (instr.length : Int) ++ (instr ++ tail)))))))) =
+      some { nContours := nc, xMin := xMin, yMin := yMin, xMax := xMax, yMax := yMax,
+             endPts := eps, instructions := instr, glyphData := tail } := by
+  generalize hdata : (be16 (nc : Int) ++ (be16 xMin ++ (be16 yMin ++ (be16 xMax ++ (be16 yMax ++
+      (epsBytes eps ++ (be16 (instr.length : Int) ++ (instr ++ tail)))))))) = data
+  have hncI : inI16 (nc : Int) := by unfold inI16; omega
+  have r0 : i16At data 0 = some (nc : Int) :=
+    i16At_at data [] _ nc 0 hncI rfl (by rw [← hdata]; rfl)
+  let t5 := epsBytes eps ++ (be16 (instr.length : Int) ++ (instr ++ tail))
+  have r2 : i16At data 2 = some xMin :=
+    i16At_at data (be16 nc) (be16 yMin ++ (be16 xMax ++ (be16 yMax ++ t5))) xMin 2 h1 rfl
+      (by rw [← hdata])
+  have r4 : i16At data 4 = some yMin :=
+    i16At_at data (be16 nc ++ be16 xMin) (be16 xMax ++ (be16 yMax ++ t5)) yMin 4 h2 rfl
+      (by rw [← hdata]; simp only [List.append_assoc, t5])
+  have r6 : i16At data 6 = some xMax :=
+    i16At_at data (be16 nc ++ be16 xMin ++ be16 yMin) (be16 yMax ++ t5) xMax 6 h3 rfl
+      (by rw [← hdata]; simp only [List.append_assoc, t5])
+  have r8 : i16At data 8 = some yMax :=
+    i16At_at data (be16 nc ++ be16 xMin ++ be16 yMin ++ be16 xMax) t5 yMax 8 h4 rfl
+      (by rw [← hdata]; simp only [List.append_assoc, t5])
+  let hdr := be16 (nc : Int) ++ be16 xMin ++ be16 yMin ++ be16 xMax ++ be16 yMax
+  have hhl : hdr.length = 10 := rfl
+  have d1 : data = hdr ++ (epsBytes eps ++ (be16 (instr.length : Int) ++ (instr ++ tail))) := by
+    rw [← hdata]; simp only [hdr, List.append_assoc]
+  have reps : (List.range nc).map (fun i => (u16At data (10 + 2 * i)).getD 0) = eps := by
+    rw [d1, ← hn, ← hhl]; exact eps_read eps hdr _ he
+  have hel := epsBytes_length eps
+  have ril : u16At data (10 + 2 * nc) = some instr.length := by
+    have := u16At_at data (hdr ++ epsBytes eps) (instr ++ tail) (instr.length : Int) (10 + 2 * nc)
+      (by simp only [List.length_append, hhl, hel, hn])
+      (by rw [d1]; simp only [List.append_assoc])
+    rw [this]; congr 1; omega
+  have d2 : data = (hdr ++ epsBytes eps ++ be16 (instr.length : Int)) ++ (instr ++ tail) := by
+    rw [d1]; simp only [List.append_assoc]
+  have l2 : (hdr ++ epsBytes eps ++ be16 (instr.length : Int)).length = 10 + 2 * nc + 2 := by
+    simp only [List.length_append, hhl, hel, hn, be16_length]
+  have hdl : data.length = 10 + 2 * nc + 2 + instr.length + tail.length := by
+    rw [d2]; simp only [List.length_append] at l2 ⊢; omega
+  have rins : (data.drop (10 + 2 * nc + 2)).take instr.length = instr := by
+    rw [d2, List.drop_left' l2, List.take_left]
+  have rgd : data.drop (10 + 2 * nc + 2 + instr.length) = tail := by
+    have d3 : data = (hdr ++ epsBytes eps ++ be16 (instr.length : Int) ++ instr) ++ tail := by
+      rw [d2]; simp only [List.append_assoc]
+    rw [d3]
+    apply List.drop_left'
+    simp only [List.length_append] at l2 ⊢; omega
+  unfold readSimple
+  rw [r0]
+  simp only []
+  have hneg : ¬ ((nc : Int) < 0) := by omega
+  simp only [hneg, ↓reduceIte, Int.toNat_natCast]
+  rw [ril]
+  simp only []
+  have hle : 10 + 2 * nc + 2 + instr.length ≤ data.length := by omega
+  simp only [hle, ↓reduceIte, r2, r4, r6, r8, Option.getD_some, reps, rins, rgd]
+
+/-- end points as the format defines them: index of the last point of each contour -/
+def endSpec : Nat → List (List Point) → List Nat
+  | _, [] => []
+  | cur, c :: cs => (cur + c.length - 1) :: endSpec (cur + c.length) cs
+
+theorem endPts_length (cs : List (List Point)) : ∀ cur eps, endPts cur cs = some eps →
+    eps.length = cs.length ∧ ∀ e ∈ eps, e < 65536 := by
+  induction cs with
+  | nil => intro cur eps h; simp [endPts] at h; subst h; simp
+  | cons c cs ih =>
+    intro cur eps h
+    simp only [endPts] at h
+    split at h
+    · cases h
+    · cases hr : endPts (cur + c.length) cs with
+      | none => simp [hr] at h
+      | some r =>
+        simp only [hr, Option.map_some, Option.some.injEq] at h
+        subst h
+        have := ih _ r hr
+        refine ⟨by simp [this.1], ?_⟩
+        intro e he
+        simp only [List.mem_cons] at he
+        rcases he with he | he
+        · subst he; omega
+        · exact this.2 e he
+
+theorem endPts_spec (cs : List (List Point)) : ∀ cur eps, endPts cur cs = some eps →
+    cur + cs.flatten.length ≤ 65535 →
+    eps = endSpec cur cs ∧ (cs ≠ [] → eps.getLast? = some (cur + cs.flatten.length - 1)
+      ∧ 0 < cur + cs.flatten.length) := by
+  induction cs with
+  | nil => intro cur eps h _; simp [endPts] at h; subst h; simp [endSpec]
+  | cons c cs ih =>
+    intro cur eps h hb
+    simp only [List.flatten_cons, List.length_append] at hb
+    simp only [endPts] at h
+    split at h
+    · cases h
+    · rename_i hz
+      cases hr : endPts (cur + c.length) cs with
+      | none => simp [hr] at h
+      | some r =>
+        simp only [hr, Option.map_some, Option.some.injEq] at h
+        subst h
+        have hmod : (cur + c.length) % 65536 = cur + c.length := by omega
+        have ⟨e1, e2⟩ := ih _ r hr (by omega)
+        rw [hmod] at hz ⊢
+        refine ⟨by simp [endSpec, e1], fun _ => ?_⟩
+        simp only [List.flatten_cons, List.length_append]
+        cases cs with
+        | nil =>
+          simp [endPts] at hr; subst hr
+          simp; omega
+        | cons c2 cs2 =>
+          have := e2 (by simp)
+          have hl := (endPts_length _ _ r hr).1
+          cases r with
+          | nil => simp at hl
+          | cons r0 r' =>
+            rw [List.getLast?_cons_cons, this.1]
+            refine ⟨?_, by omega⟩
+            congr 1; omega
+
+theorem contoursOf_spec (cs : List (List Point)) : ∀ cur eps rest, endPts cur cs = some eps →
+    cur + cs.flatten.length ≤ 65535 → contoursOf cur eps (cs.flatten ++ rest) = some cs := by
+  induction cs with
+  | nil => intro cur eps rest h _; simp [endPts] at h; subst h; simp [contoursOf]
+  | cons c cs ih =>
+    intro cur eps rest h hb
+    simp only [List.flatten_cons, List.length_append] at hb
+    simp only [endPts] at h
+    split at h
+    · cases h
+    · rename_i hz
+      cases hr : endPts (cur + c.length) cs with
+      | none => simp [hr] at h
+      | some r =>
+        simp only [hr, Option.map_some, Option.some.injEq] at h
+        subst h
+        have hmod : (cur + c.length) % 65536 = cur + c.length := by omega
+        rw [hmod] at hz ⊢
+        have e1 : cur + c.length - 1 + 1 = cur + c.length := by omega
+        have e2 : cur + c.length - cur = c.length := by omega
+        have hlt : ¬ (cur + c.length < cur) := by omega
+        simp only [contoursOf, e1, e2, hlt, ↓reduceIte, List.flatten_cons, List.append_assoc,
+          List.drop_left, List.take_left]
+        rw [ih _ r rest hr (by omega)]
+        rfl
+
+
+theorem padEven_cases (bs : List Nat) : ∃ pad, padEven bs = bs ++ pad ∧ (pad = [] ∨ pad = [0]) := by
+  unfold padEven
+  split
+  · exact ⟨[], by simp, Or.inl rfl⟩
+  · exact ⟨[0], rfl, Or.inr rfl⟩
+
+theorem padEven_length (bs : List Nat) : (padEven bs).length % 2 = 0 := by
+  unfold padEven
+  split
+  · assumption
+  · simp only [List.length_append, List.length_cons, List.length_nil]; omega
+
+theorem chunks4_be32 (offs : List Nat) (h : ∀ o ∈ offs, o < 4294967296) :
+    chunks4 (offs.flatMap be32) = some offs := by
+  induction offs with
+  | nil => rfl
+  | cons o os ih =>
+    have ho := h o (by simp)
+    have := ih (fun x hx => h x (by simp [hx]))
+    simp only [List.flatMap_cons, be32, List.cons_append, List.nil_append, chunks4, this,
+      Option.map_some, Option.some.injEq, List.cons.injEq, and_true]
+    omega
+
+theorem be16_nat (n : Nat) (h : n < 65536) : be16 (n : Int) = [n / 256, n % 256] := by
+  rw [be16_eq]
+  have e : ((n : Int) % 65536).toNat = n := by omega
+  rw [e]
+
+theorem chunks2_half (offs : List Nat) (h : ∀ o ∈ offs, o < 131072 ∧ o % 2 = 0) :
+    (chunks2 (offs.flatMap (fun o => be16 ((o / 2 % 65536 : Nat) : Int)))).map
+      (fun l => l.map (· * 2)) = some offs := by
+  induction offs with
+  | nil => rfl
+  | cons o os ih =>
+    have ho := h o (by simp)
+    have ih' := ih (fun x hx => h x (by simp [hx]))
+    cases hc : chunks2 (os.flatMap (fun o => be16 ((o / 2 % 65536 : Nat) : Int))) with
+    | none => rw [hc] at ih'; cases ih'
+    | some l =>
+      rw [hc] at ih'
+      simp only [Option.map_some, Option.some.injEq] at ih'
+      rw [List.flatMap_cons, be16_nat _ (by omega)]
+      simp only [List.cons_append, List.nil_append, chunks2]
+      rw [hc]
+      simp only [Option.map_some, Option.some.injEq, List.map_cons, List.cons.injEq]
+      exact ⟨by omega, ih'⟩
+
 end FontVerif.Glyf
